@@ -1295,7 +1295,7 @@ class Vars:
         cond1 = isinstance(other, (Real, np.ndarray)) or sp.issparse(other)
         cond2 = self.model.mtype not in 'EP'
         if cond1 and cond2:
-            upper = other + np.zeros(self.shape)
+            upper = np.asarray(other + np.zeros(self.shape))
             upper = upper.reshape((upper.size, ))
             indices = np.arange(self.first, self.first + self.size,
                                 dtype=np.int32)
@@ -1310,7 +1310,7 @@ class Vars:
         cond1 = isinstance(other, (Real, np.ndarray)) or sp.issparse(other)
         cond2 = self.model.mtype not in 'EP'
         if cond1 and cond2:
-            lower = other + np.zeros(self.shape)
+            lower = np.asarray(other + np.zeros(self.shape))
             lower = lower.reshape((lower.size, ))
             indices = np.arange(self.first, self.first + self.size,
                                 dtype=np.int32)
